@@ -7,6 +7,7 @@
 -/
 import Sbepp.Lemmas.Bits
 import Sbepp.Spec.Bits
+import Sbepp.Rt.BitsSeq
 
 namespace Sbepp.Properties.C15
 open Sbepp Sbepp.Extracted
@@ -93,7 +94,7 @@ theorem set_bit_eq_spec (T : CTy) (hT : SetTy T) (v n : Nat) (b : Bool) (hv : v 
 
 /-! ### every history of setter calls
 
-  `runSets` (`Lemmas/Bits.lean`) replays any sequence of `(choice, value)` setter calls through the
+  `runSets` (`Rt/BitsSeq.lean`) replays any sequence of `(choice, value)` setter calls through the
   extracted setter kernel.  `lastWrite` is the abstract specification: a map
   from choice index to the last value written to it. -/
 
